@@ -1168,3 +1168,34 @@ Proof.
     ("172.17.0.12", 8080%Z).
   split; [apply perm_swap|]. vm_compute. discriminate.
 Qed.
+
+(* ---- annotation names are compared exactly ---- *)
+(* within one pass, two annotation names that yield the same configuration key are the same
+   name: the code identifies no two distinct names (no letter case folding, no "_" for "-",
+   no trimming); keys are opaque strings *)
+Theorem read_config_keys_names_exact prefix n1 n2 k :
+  trim_prefix prefix n1 = Some k -> trim_prefix prefix n2 = Some k -> n1 = n2.
+Proof.
+  intros H1 H2. rewrite (trim_prefix_spec _ _ _ H1), (trim_prefix_spec _ _ _ H2). reflexivity.
+Qed.
+
+Lemma str_append_assoc (a b c : string) : ((a ++ b) ++ c)%string = (a ++ (b ++ c))%string.
+Proof. induction a as [|x a IH]; cbn; [reflexivity|]. rewrite IH. reflexivity. Qed.
+
+(* hence a map with distinct names offers every key of a pass at most once: the value read
+   does not depend on the visiting order (this is offer_perm) and a name that is not exactly
+   prefix ++ "/" ++ key never contributes to key *)
+Theorem read_config_keys_other_names (passes : list (string * annots)) k :
+  (forall p e, In p passes -> In e (snd p) -> fst e <> (fst p ++ "/" ++ k)%string) ->
+  assoc k (read_config_keys passes) = None.
+Proof.
+  intros H. rewrite read_config_keys_first_prefix. unfold offers.
+  induction passes as [|p r IH]; [reflexivity|]. cbn [first_some].
+  assert (Ho : offer (fst p ++ "/")%string (snd p) k = None).
+  { unfold offer. destruct (find _ (snd p)) as [e|] eqn:E; [|reflexivity]. exfalso.
+    apply find_some in E as [Hin Hf]. unfold offers_key in Hf.
+    destruct (trim_prefix (fst p ++ "/")%string (fst e)) as [k'|] eqn:Et; [|discriminate].
+    apply String.eqb_eq in Hf. subst k'. apply (H p e); [left; reflexivity|exact Hin|].
+    rewrite (trim_prefix_spec _ _ _ Et). apply str_append_assoc. }
+  cbv beta. rewrite Ho. apply IH. intros p' e Hp. apply H. right. exact Hp.
+Qed.
